@@ -824,7 +824,7 @@ fn registry(p: &Pools, cap: usize) -> Vec<Box<dyn TypeDyn>> {
             Attr1, Attr2, Body1, BodyRec, BodyVec, BodyMap,
             Opts, OptHdr, OptHdrBody, Colls, IntMap, Prims, Bigs,
             Gen<i32>, Gen<Named>, Gen<Vec<String>>, GenBody<E1>, Nest1, Nest2, VecStruct,
-            E1, E2, Tagged, TaggedHb, EnumHolder,
+            E1, E2, E3, Tagged, TaggedHb, EnumHolder,
             ValSlot, ValBody, ValAttr, ValHdrBody, ValHdr,
             Builtins, BuiltinPlaces, NestedColls,
         ]
